@@ -338,6 +338,18 @@ Section WithBeh.
       + destruct Hp as [w [g' [_ [_ [P4 _]]]]]. congruence.
   Qed.
 
+  (** when self._deferred is None -- in particular at the moment a start() Deferred has just fired, which is the
+      last action of stop() / cb / eb -- the loop is idle: a start() issued by that Deferred's callback finds
+      exactly the state a start() issued afterwards by the test program finds *)
+  Lemma reach_done_idle : forall ops, run_ok init ops ->
+    let s := run beh with_count init ops in dcur s = None -> idle s.
+  Proof.
+    intros ops Hok s Hd. destruct (reach_Inv ops Hok) as [_ Hp]. fold s in Hp.
+    destruct Hp as [Hp|[Hp|Hp]]; [exact Hp| |].
+    - destruct Hp as [id [t [g [_ [_ [_ [_ P5]]]]]]]. congruence.
+    - destruct Hp as [w [g [_ [_ [_ P5]]]]]. congruence.
+  Qed.
+
   (** once the loop is over (stopped or failed, nothing outstanding) nothing is scheduled and f is not
       called again by any operation other than a new start() *)
   Lemma reach_quiet : forall ops, run_ok init ops ->
